@@ -389,6 +389,12 @@ func ReadFromTTML(i io.Reader) (o *Subtitles, err error) {
 
 	// Loop through subtitles
 	for _, ts := range ttml.Subtitles {
+		// Begin and end are mandatory here
+		if ts.Begin == nil || ts.End == nil {
+			err = fmt.Errorf("astisub: subtitle %s has no begin or no end attribute", ts.ID)
+			return
+		}
+
 		// Init item
 		ts.Begin.framerate = ttml.Framerate
 		ts.Begin.tickrate = ttml.Tickrate
